@@ -784,7 +784,111 @@ func cmdLiveWalk(args []string) {
 	os.WriteFile(*out, b, 0o644)
 }
 
+// cmdLiveClosure (binding G, closure): the product of the REAL byte reader and the model's state graph is explored until no
+// new pair (reader snapshot, model state) appears.  After every byte the delivered messages are compared with the model's.
+// Since every input of the alphabet is tried from every reachable pair, agreement on the closed set means agreement on byte
+// streams of EVERY length over the alphabet (for the option sets the driver level has: as = tc = on).
+func cmdLiveClosure(args []string) {
+	fs := flag.NewFlagSet("live-closure", flag.ExitOnError)
+	gpath := fs.String("graph", "", "")
+	out := fs.String("out", "", "")
+	maxPairs := fs.Int("max", 2000000, "")
+	fs.Parse(args)
+	var g Graph
+	d, err := os.ReadFile(*gpath)
+	if err != nil {
+		hx.Die(err)
+	}
+	if err := json.Unmarshal(d, &g); err != nil {
+		hx.Die(err)
+	}
+	type edge struct {
+		in  byte
+		to  string
+		out [][]byte
+	}
+	edges := map[string][]edge{}
+	for from, es := range g.Edges {
+		for _, e := range es {
+			to := e[2].(string)
+			var exp [][]byte
+			for _, m := range g.Nodes[to]["out"].([]interface{}) {
+				var bs []byte
+				for _, x := range m.([]interface{}) {
+					bs = append(bs, byte(x.(float64)))
+				}
+				exp = append(exp, bs)
+			}
+			edges[from] = append(edges[from], edge{in: byte(e[1].([]interface{})[0].(float64)), to: to, out: exp})
+		}
+	}
+	type pair struct {
+		rd   *drivers.Reader
+		node string
+		path []byte
+	}
+	var pairs, steps int64
+	var mism []walkMismatch
+	closed := true
+	for _, iid := range g.Inits {
+		cfg := g.Nodes[iid]["cfg"].(map[string]interface{})
+		if !cfg["as"].(bool) || !cfg["tc"].(bool) {
+			continue
+		}
+		capv, sysex := uint32(cfg["cap"].(float64)), cfg["sysex"].(bool)
+		var cur [][]byte
+		sink := func(m []byte, ts int32) {
+			if len(m) > 0 && m[0] == 0xF7 {
+				return
+			}
+			if len(m) > 0 && m[0] != 0xF0 && len(m) >= 1+nData(m[0]) {
+				m = m[:1+nData(m[0])]
+			}
+			cur = append(cur, append([]byte{}, m...))
+		}
+		seen := map[string]bool{}
+		r0 := drivers.NewReader(drivers.ListenConfig{SysEx: sysex, SysExBufferSize: capv}, sink)
+		queue := []pair{{r0, iid, nil}}
+		seen[r0.VerifState()+"@"+iid] = true
+		for len(queue) > 0 && len(mism) < 20 {
+			p := queue[0]
+			queue = queue[1:]
+			pairs++
+			if pairs > int64(*maxPairs) {
+				closed = false
+				break
+			}
+			for _, e := range edges[p.node] {
+				c := p.rd.VerifClone(sink)
+				cur = nil
+				pan := hx.Catch(func() { c.EachMessage([]byte{e.in}, 0) })
+				steps++
+				if pan != "" || !eqOut(cur, e.out) {
+					sess := &LSession{ID: int(pairs), Lvl: "reader", Cap: capv, Sysex: sysex, As: true, Tc: true, Feat: []string{"closure"}, Prev: []bool{}}
+					for _, b := range append(append([]byte{}, p.path...), e.in) {
+						sess.Chunks = append(sess.Chunks, LChunk{Dt: 0, Bytes: hx.B{b}})
+					}
+					mism = append(mism, walkMismatch{Session: sess, Step: len(p.path) + 1, Exp: toInts(e.out), Got: toInts(cur)})
+					continue
+				}
+				k := c.VerifState() + "@" + e.to
+				if !seen[k] {
+					seen[k] = true
+					queue = append(queue, pair{c, e.to, append(append([]byte{}, p.path...), e.in)})
+				}
+			}
+		}
+	}
+	res := map[string]interface{}{"pairs": pairs, "steps": steps, "closed": closed && len(mism) == 0, "mismatches": mism, "model_nodes": len(g.Nodes)}
+	if mism == nil {
+		res["mismatches"] = []walkMismatch{}
+	}
+	b, _ := json.Marshal(res)
+	os.WriteFile(*out, b, 0o644)
+}
+
 func init() {
+	register("live-closure", cmdLiveClosure)
 	register("live-gen", cmdLiveGen)
 	register("live-rerun", cmdLiveRerun)
 	register("live-walk", cmdLiveWalk)
